@@ -536,6 +536,8 @@ class ExprMixin(object):
             if f is None:
                 raise OutsideSubset('property without %s' % attr)
             return f
+        if isinstance(base, PyDict) and attr in ('items', 'keys', 'values'):
+            return BoundMethod(base, attr)
         if isinstance(base, PyVal):
             raise OutsideSubset('attribute %s of %s' % (attr, type(base).__name__))
         s = base.sort
@@ -787,6 +789,11 @@ class ExprMixin(object):
     def as_seq(self, v, st):
         """the sequence a value iterates as"""
         if isinstance(v, PyTuple):
+            if all(isinstance(x, SV) for x in v.items):
+                t = z3.Empty(z3.SeqSort(Val))
+                for x in v.items:
+                    t = z3.Concat(t, z3.Unit(box(x).t))
+                return SV(SeqT(VAL), t)
             raise OutsideSubset('iteration over python tuple')
         if isinstance(v, PyVal):
             raise OutsideSubset('iteration over %s' % type(v).__name__)
